@@ -435,10 +435,17 @@ func (r *srvRun) callPush(wantID bool, method, params string) int {
 	r.nops++
 	n := r.nops
 	r.log.item("env\tcallpush\t%d\t%s\t%s\t%s", n, b01(wantID), hexf([]byte(method)), hexf([]byte(params)))
-	ctx := &mctx{done: make(chan struct{})}
+	mc := &mctx{done: make(chan struct{})}
+	var ctx context.Context = mc
+	// every third push uses a context that can never end (context.Background: Done() == nil), as a
+	// caller outside any handler would; such a callback can only be ended by its reply or by the stop
+	background := n%3 == 0
+	if background {
+		ctx = context.Background()
+	}
 	r.mu.Lock()
-	r.cbctx[n] = ctx
-	if wantID && r.cfg.push {
+	r.cbctx[n] = mc
+	if wantID && r.cfg.push && !background {
 		r.cbOpen = append(r.cbOpen, n)
 	}
 	r.mu.Unlock()
